@@ -177,3 +177,42 @@ def runner(prop):
     return deco
 
 
+
+
+def compare_lazy(res, tag, data, exp):
+    """the same content through the lazy reader: per-channel offset index, chunk arithmetic and the path index of
+    every segment (SegmentIndexCache) are only exercised by TdmsFile.open"""
+    from nptdms import TdmsFile
+    try:
+        with TdmsFile.open(io.BytesIO(data), raw_timestamps=True) as tf:
+            chans = read_channels(tf)
+            for p, ent in exp["channels"].items():
+                if p not in chans or ent["tcode"] is None:
+                    continue
+                c = chans[p]
+                want = G.expected_array(ent["tcode"], ent["items"])
+                n = len(ent["items"])
+                script = file_script(data, "c = [c for g in TdmsFile.open(io.BytesIO(data)).groups() for c in g.channels() "
+                                           "if c.path == %r][0]\nprint(len(c), c[:]); sys.exit(1)\n" % p)
+                try:
+                    got = G.channel_bytes(c[:])
+                    chunks = [x for ch in c.data_chunks() for x in [G.channel_bytes(ch[:])]]
+                    last = G.channel_bytes(c.read_data(max(n - 1, 0), 1)) if n else None
+                except Exception as e:
+                    res.violation(tag + "/lazy-read-raised", "%s: %r" % (p, e), script)
+                    continue
+                if len(c) != n:
+                    res.violation(tag + "/lazy-length", "%s len %d expected %d" % (p, len(c), n), script)
+                w = want if isinstance(want, list) else bytes(want)
+                if (got if isinstance(got, list) else bytes(got)) != w:
+                    res.violation(tag + "/lazy-values", "%s type %r: got %r expected %r" % (p, ent["tcode"], got[:40], want[:40]), script)
+                cat = [y for x in chunks for y in x] if isinstance(want, list) else b"".join(bytes(x) for x in chunks)
+                if cat != w:
+                    res.violation(tag + "/lazy-chunk-stream", "%s: concatenated data_chunks() differ from the content" % p, script)
+                if n and not isinstance(want, list):
+                    width = len(w) // n
+                    if bytes(last) != w[(n - 1) * width:]:
+                        res.violation(tag + "/lazy-last-value", "%s: read_data(n-1, 1) differs" % p, script)
+    except Exception as e:
+        res.violation(tag + "/lazy-open-raised", "%r on %d-byte file" % (e, len(data)),
+                      file_script(data, "TdmsFile.open(io.BytesIO(data))\n"))
